@@ -19,7 +19,7 @@ def cm : CursorMint := ⟨.anonymous, "gen".toList, List.replicate 16 7, 100, [9
 def E : Wire :=
   ⟨fun t => if t = cm.tok z 1 then [65] else [67],
    fun w => if w = [65] ∨ w = [66] then some (cm.tok z 1) else none⟩
-def D : Decoders := ⟨fun _ => true, fun _ => true⟩
+def D : Decoders := ⟨fun _ => true, fun _ => true, fun _ => true⟩
 def srv : Server := ⟨1, 3600⟩
 def W : World :=
   { cursors := [cm] ++ World.empty.cursors, calls := km :: World.empty.calls,
@@ -84,7 +84,6 @@ def pinnedSites : List (String × String × String) := [
 theorem pinned_messages_differ :
     responseIn pinnedSites .curSeal ≠ responseIn pinnedSites .curB64 ∧
     responseIn pinnedSites .curSeal ≠ responseIn pinnedSites .curExpired ∧
-    responseIn pinnedSites .curSeal ≠ responseIn pinnedSites .pairing ∧
-    responseIn pinnedSites .curSeal ≠ responseIn pinnedSites .callSeal := by decide
+    responseIn pinnedSites .curSeal ≠ responseIn pinnedSites .pairing := by decide
 
 end VgiVerif.C12.Findings
